@@ -1,4 +1,4 @@
-HOOK_COMMITS = ["725ea72", "a9505d1"]
+HOOK_COMMITS = ["725ea72", "a9505d1", "a2ed081"]
 COMMON_NOTE = ("Trusted: Coq 8.16.1 kernel, extraction (ExtrOcamlBasic, ExtrOcamlZBigInt), zarith, the OCaml driver, the Rust harness and the "
                "python orchestration; groups/pairing modelled as discrete logs over an abstract field; ark-* primitives, hashes and sponges are oracles. "
                "Theorems are about the model; the model is tied to /repo by the correspondence run of this check.")
